@@ -9,14 +9,17 @@ Go ↔ Lean
 Offsets are `Int`; the Go code computes in int64 — the theorems assume no overflow (|values| < 2^62 is enough),
 which the generator respects.
 -/
+import KafkaVerif.Gen.Offsets
+
 namespace KV.Seek
 
-def seekStart : Int := 0
-def seekAbsolute : Int := 1
-def seekEnd : Int := 2
-def seekCurrent : Int := 3
-/-- SeekDontCheck = 1 << 30 -/
-def dontCheckBit : Nat := 1073741824
+/-! the whence constants and the sentinel offsets are regenerated from conn.go / reader.go (Gen/Offsets.lean) -/
+def seekStart : Int := Gen.Offsets.seekStart
+def seekAbsolute : Int := Gen.Offsets.seekAbsolute
+def seekEnd : Int := Gen.Offsets.seekEnd
+def seekCurrent : Int := Gen.Offsets.seekCurrent
+/-- SeekDontCheck -/
+def dontCheckBit : Nat := Gen.Offsets.seekDontCheck
 
 inductive Outcome where
   | ok (newOffset : Int)   -- c.offset afterwards = the value returned (every success path returns the stored offset)
@@ -46,6 +49,16 @@ def seek (cur : Int) (offset : Int) (whence : Int) (dontCheck : Bool) (offsets :
         else offset
       if offset < first || offset > last then .outOfRange else .ok offset
 
+/-- (*Conn).ReadOffsets: first offset, then last offset, by two list-offset requests; an error of the first is
+returned as is, an error of the second is returned without leaking the first value -/
+def readOffsets (first last : Except Int Int) : Except Int (Int × Int) :=
+  match first with
+  | .error e => .error e
+  | .ok f =>
+    match last with
+    | .error e => .error e
+    | .ok l => .ok (f, l)
+
 /-- does this call consult the broker? -/
 def needsOffsets (cur : Int) (offset : Int) (whence : Int) (dontCheck : Bool) : Bool :=
   (whence == seekStart || whence == seekEnd) ||
@@ -54,6 +67,6 @@ def needsOffsets (cur : Int) (offset : Int) (whence : Int) (dontCheck : Bool) : 
 
 /-- (*Conn).Offset: the sentinel offsets are reported relative to start / end -/
 def offsetOf (cur : Int) : Int × Int :=
-  if cur == -2 then (0, seekStart) else if cur == -1 then (0, seekEnd) else (cur, seekAbsolute)
+  if cur == Gen.Offsets.firstOffset then (0, seekStart) else if cur == Gen.Offsets.lastOffset then (0, seekEnd) else (cur, seekAbsolute)
 
 end KV.Seek
